@@ -117,4 +117,55 @@ Proof. intros Hi Hin. destruct (vac_idle Hi) as [Es El]. destruct Hinv as [Nd K]
   unfold steps. cbn [forallb step_logs snd fst]. rewrite El. cbn [count_occ_N filter length Nat.leb andb].
   destruct at_; cbn [Nat.leb andb];
     repeat match goal with |- context [if ?b then _ else _] => destruct b end; reflexivity. Qed.
+
+Lemma stored_ualloc x c : aget c st0 = Some x -> o_ualloc (p_opts x) = [] /\ pb_norm x = x /\ p_cid x = c.
+Proof. intros G. destruct Hinv as [_ K]. destruct (K c x G) as (A & B & _). split; [|auto]. rewrite <- B. reflexivity. Qed.
+
+Lemma vac_entry_active at_ ae c x : fol = false -> norep = false -> In (c, x) st0 -> entry_okb 0 rv ms at_ ae f st0 st' steps c x = true.
+Proof. intros Hf Hn Hin. pose proof Hinv as [Nd K].
+  assert (G : aget c st0 = Some x) by now apply in_aget.
+  destruct (stored_ualloc x c G) as (Hua & PN & Cx).
+  pose proof (Hmeta c x G) as Mx.
+  destruct (vacate_entry_l pc e ord lord st0 f c x Hlord Hinv) as [A B]; [exact Hf|exact Hn|exact G|apply (Hnu c x G)|].
+  cbv zeta in A, B. fold st' in A. fold logs in B.
+  unfold entry_okb. cbv zeta. rewrite vac_loggers.
+  destruct (memN f (p_allocs x)) eqn:Mf; cbn [negb].
+  - (* held by the removed peer *)
+    assert (Hcnt : count_occ_N c logs = cnt c logs) by reflexivity.
+    assert (Hle : Nat.leb (if memN c logs then 1 else 0) 1 = true) by (destruct (memN c logs); reflexivity).
+    assert (Hc1 : Nat.leb (count_occ_N c logs) 1 = true) by (rewrite Hcnt, B; destruct (repin_res (pc_cfg pc) e ord f x); reflexivity).
+    unfold steps at 1. cbn [forallb step_logs snd fst]. rewrite Hc1. replace (if at_ then Nat.leb (if memN c logs then 1 else 0) 1 else true) with true by (destruct at_; auto).
+    cbn [andb].
+    destruct (negb ((0 <? o_rmin (p_opts x)) && (o_rmin (p_opts x) <=? o_rmax (p_opts x))) || expired_at 0 x || ptype_eqb (p_ty x) MetaT
+              || negb (nodupb (p_allocs x))) eqn:Prem; [reflexivity|].
+    rewrite !orb_false_iff in Prem. destruct Prem as [[[P1 P2] P3] P4]. apply negb_false_iff in P1, P4.
+    apply andb_true_iff in P1. destruct P1 as [V1 V2]. apply Z.ltb_lt in V1. apply Z.leb_le in V2. apply nodupb_NoDup in P4.
+    apply ptype_eqb_neq in P3.
+    assert (W : wf_repin e x).
+    { constructor; auto. apply (Htyped c x G); auto. now apply memN_in. }
+    set (i := mk_input (o_rmin (p_opts x)) (o_rmax (p_opts x)) (p_allocs x) ms [f] [] rv) in *.
+    assert (Ei : repin_input (pc_cfg pc) e f x = i) by (unfold repin_input, i, pc, e; cbn; now rewrite Hua).
+    pose proof (repin_res_wf (pc_cfg pc) e ord f x W) as Er. rewrite Ei, Cx in Er. change (e_now e) with 0 in Er.
+    assert (V : valid_factors (rmin i) (rmax i)) by (split; assumption).
+    assert (Ho : forall xs, Permutation (ord c xs) xs) by (intros xs; apply Hord).
+    assert (Hmi : NoDup (map mpeer (metrics i))) by exact Hms.
+    destruct (Z.leb_spec (o_rmin (p_opts x)) (healthy_count 0 i (p_allocs x))) as [H1|H1].
+    + destruct (Z.leb_spec (healthy_count 0 i (p_allocs x)) (o_rmax (p_opts x))) as [H2|H2]; [|reflexivity].
+      rewrite (realloc_total_when_enough 0 i (ord c) Ho Hmi V (conj H1 H2)) in Er. cbn [current i] in Er. rewrite set_allocs_same in Er.
+      rewrite Er, PN in A. apply (entry_same_refl st0 st' c x G A Mx).
+    + destruct (alloc_fail_is_error_l 0 i (ord c) V) as [Hen Hbf]. rewrite <- (reachable_eq 0 i (ord c) Ho) in Hen.
+      destruct (Z.ltb_spec (reachable 0 i) (o_rmin (p_opts x))) as [H3|H3].
+      * rewrite (proj2 Hen H3) in Er. rewrite Er in A. apply (entry_same_refl st0 st' c x G A Mx).
+      * destruct ae; [|reflexivity]. cbn [negb].
+        destruct (allocate 0 i (ord c)) as [l| |] eqn:AL; [|congruence|exfalso; apply (Z.lt_irrefl (o_rmin (p_opts x))); eapply Z.le_lt_trans; [exact H3|apply Hen; reflexivity]].
+        rewrite Er in A, B. rewrite (pb_norm_set_allocs l x PN) in A. rewrite A.
+        cbn [set_allocs p_allocs p_opts p_ty p_depth p_ref].
+        assert (Hb : In f (blacklist i)) by (cbn; auto).
+        pose proof (realloc_excludes_failed 0 i (ord c) f l Ho Hmi Hb V AL H1) as Hex. apply memN_false in Hex. rewrite Hex.
+        pose proof (alloc_model_passes_monitor_l 0 i (ord c) Ho Hmi P4) as Hsp. rewrite AL in Hsp. cbn [obs_of] in Hsp. rewrite Hsp.
+        rewrite (opts_eqb_refl _ Mx), ptype_eqb_refl, Z.eqb_refl, optN_eqb_refl.
+        assert (Hm : memN c logs = true). { destruct (memN c logs) eqn:E; auto. apply cnt_memN in E. rewrite E in B. discriminate. }
+        rewrite Hm. reflexivity.
+  - (* not held: untouched, never logged *)
+    rewrite (entry_same_refl st0 st' c x G A Mx). apply cnt_memN in B. rewrite B. reflexivity. Qed.
 End VacEntry.
